@@ -11,6 +11,11 @@ from google.protobuf.descriptor import FieldDescriptor as FD
 
 class Probe:
     def __init__(self):
+        # extensions must be registered before the request is parsed, or annotations end up as unknown fields
+        from google.api import (annotations_pb2, client_pb2, field_behavior_pb2, resource_pb2, routing_pb2,  # noqa: F401
+                                field_info_pb2)
+        from google.longrunning import operations_pb2  # noqa: F401
+        from google.cloud import extended_operations_pb2  # noqa: F401
         self.args_path, self.out_path = sys.argv[1], sys.argv[2]
         with open(self.args_path) as f:
             self.args = json.load(f)
